@@ -14,6 +14,7 @@ type GenOpt struct {
 	TextOnly  bool // text slots from printable ASCII only
 	BodyNoNul bool // message bodies without NUL
 	FixedSeq  bool // sequence numbers given by the caller
+	Shape     int  // 0 mixed; 1 every variable-length field at its minimum (the smallest image of the type); 2 every one at its maximum
 }
 
 var intEdges = map[int][]uint64{
@@ -40,7 +41,13 @@ func GenInt(c *core.Chooser, bits int) uint64 {
 }
 
 func genText(c *core.Chooser, max int, o GenOpt) []byte {
-	n := c.Size(max, max)
+	n := 0
+	switch o.Shape {
+	case 0:
+		n = c.Size(max, max)
+	case 2:
+		n = max
+	}
 	alpha := "nonul"
 	if o.TextOnly || c.Prob(1, 2) {
 		alpha = "print"
@@ -112,6 +119,12 @@ func Gen(c *core.Chooser, p *PDU, o GenOpt) *Msg {
 				bounds = []int{0, 1, 140, 255, 256, 65535, 65536}
 			}
 			n := c.Size(max, bounds...)
+			switch o.Shape {
+			case 1:
+				n = 0
+			case 2:
+				n = max
+			}
 			if o.BodyNoNul {
 				v.B = c.Blob(n, "nonul")
 			} else {
@@ -124,6 +137,12 @@ func Gen(c *core.Chooser, p *PDU, o GenOpt) *Msg {
 				max = 3
 			}
 			n := c.Size(max, 1, 12, 13, 99, 100, 255)
+			switch o.Shape {
+			case 1:
+				n = c.Intn(2)
+			case 2:
+				n = max
+			}
 			for i := 0; i < n; i++ {
 				v.L = append(v.L, genText(c, f.Width, o))
 			}
@@ -133,7 +152,7 @@ func Gen(c *core.Chooser, p *PDU, o GenOpt) *Msg {
 				v.S[i] = uint32(GenInt(c, 32))
 			}
 		case KTLVs, KOptions:
-			if o.NoTail {
+			if o.NoTail || o.Shape == 1 {
 				break
 			}
 			n := 0
